@@ -83,7 +83,7 @@ def cases(tier, inst):
             yield ("xy", t, sel, "rich")
     # (g) three variables, a connective nested in the other one, under EVERY declaration order of the variables (the
     #     operator caches are keyed by variable ids, i.e. by declaration order)
-    l3 = NEST3_LEAVES if thorough else NEST3_LEAVES[:5]
+    l3 = NEST3_LEAVES
     for a, b, c in itertools.product(l3, repeat=3):
         if len({a, b, c}) < 3:
             continue
